@@ -159,6 +159,15 @@ def run(ctx):
         if o.rule in ('C07.LAYOUT',):
             o.rule = 'C02.PARSE(=C07.LAYOUT)'
             ctx.obligations.append(o)
+    # agreement includes the failure cases: where public derivation refuses (IL >= n, point at infinity) private derivation
+    # must refuse too (seed C02-O: `>` for `>=` in the private arm) - C18's obligations for both ckd functions
+    from . import C18
+    sub18 = ctx.__class__('C02', ctx.tier, ctx.p, ctx.seed)
+    C18.run(sub18)
+    for o in sub18.obligations:
+        if o.rule in ('C18.CKDPRIV', 'C18.CKDPUB'):
+            o.rule = 'C02.INVALID(=%s)' % o.rule
+            ctx.obligations.append(o)
     # agreement along sub-paths (the multi-level claim) rests on derive_path being the left fold of ckd on both node kinds
     from . import C17
     C17.check_fold(ctx, 'C02.FOLD(=C17)')
